@@ -120,3 +120,271 @@ Proof.
     replace (pos + n) with (pos + zlen bytes + (n - zlen bytes)) by lia.
     apply IH; try assumption; try lia.
 Qed.
+
+(* ---------------------------------------------------------------- skipFlush *)
+(* the invariant of C09Stream with the state of the reverse half as a parameter *)
+Definition inv2 (S : list Z) (i pos : Z) (rc : bool) (st : st) : Prop :=
+  s_exists st = true /\ s_cfg st = cfg0 /\ s_rev_closed st = rc /\ h_saved (s_half st) = [] /\
+  (h_closed (s_half st) = false ->
+     h_next (s_half st) = sq i pos /\ qok S i (pos + 1) HIS (h_queue (s_half st))) /\
+  0 <= pos <= zlen S.
+
+Lemma inv_inv2 : forall S i pos st, inv S i pos st <-> inv2 S i pos false st.
+Proof.
+  intros. split.
+  - intros [H1 H2 H3 H4 H5 H6]. unfold inv2. auto 10.
+  - intros (H1 & H2 & H3 & H4 & H5 & H6). constructor; assumption.
+Qed.
+
+Lemma skip_flush_ok : forall S i pos rc st,
+  zlen S < HIS -> inv2 S i pos rc st -> h_closed (s_half st) = false ->
+  exists st' ev pos', skip_flush fixedv st = (st', ev, false) /\
+    s_rev_seen st' = s_rev_seen st /\ abs_evs S pos ev pos' /\
+    (inv2 S i pos' rc st' \/ (rc = true /\ s_exists st' = false /\ h_closed (s_half st') = true)).
+Proof.
+  intros S i pos rc st HS Hinv Hopen.
+  destruct Hinv as (Hex & Hcfg & Hrev & Hsv & Hopn & Hpos). destruct (Hopn Hopen) as (Hnx & Hq).
+  destruct st as [c ex h rc0 rs used sid nc]. cbn [s_exists s_cfg s_rev_closed s_half s_rev_seen] in *. subst c ex rc0.
+  destruct h as [pg_ sv q nx seen cl]. cbn [h_saved h_closed h_next h_queue] in *. subst sv cl nx.
+  unfold skip_flush. cbn [s_half h_queue].
+  destruct q as [|p q'].
+  - (* nothing queued: the half is closed *)
+    unfold close_c2s. cbn [s_half s_rev_closed s_cfg s_exists s_rev_seen s_used s_sid s_ncalls
+                          h_pages h_saved h_queue h_next h_seen h_closed].
+    destruct rc.
+    + eexists. eexists. exists pos. split; [reflexivity|]. split; [reflexivity|]. split; [cbn [abs_evs]; reflexivity|].
+      right. cbn [s_exists s_half h_closed]. auto.
+    + eexists. eexists. exists pos. split; [reflexivity|]. split; [reflexivity|]. split; [cbn [abs_evs]; reflexivity|].
+      left. unfold inv2. cbn [s_exists s_cfg s_rev_closed s_half h_saved h_closed h_next h_queue].
+      repeat split; try reflexivity; try lia. all: intros Hc; discriminate.
+  - cbn [qok] in Hq. destruct Hq as (o1 & Ho1 & Ho1e & Hpg & Hq').
+    cbn [h_pages h_saved h_next h_seen h_closed s_used].
+    unfold send_st. cbn [s_cfg s_sid s_ncalls s_exists s_rev_closed s_rev_seen].
+    destruct (send_page S i 0 HIS (mkHalf pg_ [] q' (sq i pos) seen false) used pos o1 p sid nc)
+      as (e' & tk & q1 & He1 & He2 & Hq1 & Heq);
+      cbn [h_saved h_next h_queue]; try reflexivity; try lia; try assumption; try apply HIS_HI.
+    rewrite Heq. cbn [sr_panic sr_end sr_half sr_used sr_next sr_ev h_pages h_saved h_queue h_next h_seen h_closed].
+    pose proof Hpg as (Hp1 & Hpl & HpS & Hpq & Hpb).
+    assert (Habs : forall en tl pos'', abs_evs S e' tl pos'' ->
+              abs_evs S pos (ETag 13 :: ESG sid (sub S o1 (e' - o1)) false en (o1 - pos) (e' - o1) 0 :: tl) pos'').
+    { intros en tl pos'' Ht. cbn [abs_evs]. rewrite zlen_sub by lia.
+      replace (pos + (o1 - pos)) with o1 by lia. replace (o1 + (e' - o1)) with e' by lia.
+      repeat split; try lia; try reflexivity. exact Ht. }
+    destruct (last_end (CPage p :: map CPage tk)) eqn:Eend.
+    + unfold close_c2s. cbn [s_half s_rev_closed s_cfg s_exists s_rev_seen s_used s_sid s_ncalls
+                            h_pages h_saved h_queue h_next h_seen h_closed].
+      destruct rc; rewrite sq_not_invalid.
+      * eexists. eexists. exists e'. split; [reflexivity|]. split; [reflexivity|].
+        split; [cbn [app]; apply Habs; cbn [abs_evs]; reflexivity|].
+        right. cbn [s_exists s_half set_half set_next h_closed]. auto.
+      * eexists. eexists. exists e'. split; [reflexivity|]. split; [reflexivity|].
+        split; [cbn [app]; apply Habs; cbn [abs_evs]; reflexivity|].
+        left. unfold inv2. cbn [s_exists s_cfg s_rev_closed s_half set_half set_next h_saved h_closed h_next h_queue].
+        repeat split; try reflexivity; try lia. all: intros Hc; discriminate.
+    + rewrite sq_not_invalid.
+      eexists. eexists. exists e'. split; [reflexivity|]. split; [reflexivity|].
+      split; [apply Habs; cbn [abs_evs]; reflexivity|].
+      left. unfold inv2. cbn [s_exists s_cfg s_rev_closed s_half set_half set_next h_saved h_closed h_next h_queue].
+      repeat split; try reflexivity; try lia; try assumption.
+Qed.
+
+(* ---------------------------------------------------------------- FlushWithOptions *)
+Lemma fc_loop_ok : forall S i t fuel pos st,
+  zlen S < HIS -> inv2 S i pos false st -> h_closed (s_half st) = false ->
+  exists st' ev pos', fc_loop fuel fixedv st t = (st', ev, false) /\
+    s_rev_seen st' = s_rev_seen st /\ abs_evs S pos ev pos' /\ inv2 S i pos' false st'.
+Proof.
+  intros S i t. induction fuel as [|f IH]; intros pos st HS Hinv Hcl.
+  - exists st, [], pos. cbn [fc_loop abs_evs]. auto.
+  - cbn [fc_loop].
+    destruct (h_queue (s_half st)) as [|p q'] eqn:Eq.
+    { exists st, [], pos. cbn [abs_evs]. auto. }
+    destruct (pseen p <? t) eqn:Et.
+    2:{ exists st, [], pos. cbn [abs_evs]. auto. }
+    destruct (skip_flush_ok S i pos false st HS Hinv Hcl) as (s1 & ev1 & pos1 & He & Hr & Ha & Hi).
+    rewrite He.
+    destruct Hi as [Hi|(Hc & _)]; [|discriminate].
+    destruct (h_closed (s_half s1)) eqn:Hcl1.
+    + exists s1, ev1, pos1. auto.
+    + destruct (IH pos1 s1 HS Hi Hcl1) as (s2 & ev2 & pos2 & He2 & Hr2 & Ha2 & Hi2).
+      rewrite He2. exists s2, (ev1 ++ ev2), pos2. split; [reflexivity|]. split; [congruence|].
+      split; [eapply abs_evs_app; eauto|assumption].
+Qed.
+
+Lemma close_c2s_inv2 : forall S i pos st, inv2 S i pos false st ->
+  exists st', close_c2s st = (st', []) /\ s_rev_seen st' = s_rev_seen st /\ inv2 S i pos false st'.
+Proof.
+  intros S i pos st (Hex & Hcfg & Hrev & Hsv & Hopn & Hpos).
+  unfold close_c2s. rewrite Hrev. eexists. split; [reflexivity|]. split; [reflexivity|].
+  unfold inv2. cbn [s_exists s_cfg s_rev_closed s_half h_saved h_closed h_next h_queue].
+  repeat split; try assumption; try lia. all: intros Hc; discriminate.
+Qed.
+
+Lemma flush_close_c2s_ok : forall S i t tc pos st,
+  zlen S < HIS -> inv2 S i pos false st ->
+  exists st' ev pos', flush_close_c2s fixedv st t tc = (st', ev, false) /\
+    s_rev_seen st' = s_rev_seen st /\ abs_evs S pos ev pos' /\ inv2 S i pos' false st'.
+Proof.
+  intros S i t tc pos st HS Hinv. unfold flush_close_c2s.
+  destruct (h_closed (s_half st)) eqn:Hcl.
+  { exists st, [], pos. cbn [abs_evs]. auto. }
+  destruct (fc_loop_ok S i t (Datatypes.S (length (h_queue (s_half st)))) pos st HS Hinv Hcl)
+    as (s1 & ev1 & pos1 & He & Hr & Ha & Hi).
+  rewrite He.
+  destruct (h_closed (s_half s1)) eqn:Hcl1.
+  { exists s1, ev1, pos1. auto. }
+  destruct (h_queue (s_half s1)) eqn:Eq1.
+  2:{ exists s1, ev1, pos1. auto. }
+  destruct (conn_last_seen s1 <? tc).
+  - destruct (close_c2s_inv2 S i pos1 s1 Hi) as (s2 & He2 & Hr2 & Hi2). rewrite He2.
+    exists s2, (ev1 ++ []), pos1. split; [reflexivity|]. split; [congruence|].
+    rewrite app_nil_r. auto.
+  - exists s1, ev1, pos1. auto.
+Qed.
+
+Lemma conn_last_seen_ge : forall st, s_rev_seen st <= conn_last_seen st.
+Proof. intros. unfold conn_last_seen. destruct (h_seen (s_half st) <? s_rev_seen st) eqn:E; lia. Qed.
+
+(* FlushWithOptions{T, TC} with TC not later than the first packet of the connection: nothing is
+   closed; what is older than T is handed over with its gaps announced *)
+Lemma flush_opts_ok : forall S i t tc pos st,
+  zlen S < HIS -> inv S i pos st -> tc <= s_rev_seen st ->
+  exists st' ev pos', flush_opts fixedv st t tc = (st', ev, false) /\
+    s_rev_seen st' = s_rev_seen st /\ abs_evs S pos ev pos' /\ inv S i pos' st'.
+Proof.
+  intros S i t tc pos st HS Hinv Htc. apply inv_inv2 in Hinv.
+  pose proof Hinv as (Hex & Hcfg & Hrev & _).
+  unfold flush_opts. rewrite Hex. cbn [negb].
+  unfold flush_close_rev. rewrite Hrev.
+  pose proof (conn_last_seen_ge st).
+  replace (conn_last_seen st <? tc) with false by lia.
+  destruct (flush_close_c2s_ok S i t tc pos st HS Hinv) as (s1 & ev1 & pos1 & He & Hr & Ha & Hi).
+  rewrite He. exists s1, ([] ++ ev1), pos1. cbn [app]. split; [reflexivity|]. split; [assumption|].
+  split; [assumption|]. apply inv_inv2. assumption.
+Qed.
+
+(* ---------------------------------------------------------------- FlushAll *)
+Lemma fa_loop_ok : forall S i fuel pos st,
+  zlen S < HIS -> inv2 S i pos true st ->
+  exists st' ev pos', fa_loop fuel fixedv st = (st', ev, false) /\ abs_evs S pos ev pos'.
+Proof.
+  intros S i. induction fuel as [|f IH]; intros pos st HS Hinv.
+  - exists st, [], pos. cbn [fa_loop abs_evs]. auto.
+  - cbn [fa_loop].
+    destruct (h_closed (s_half st)) eqn:Hcl.
+    { exists st, [], pos. cbn [abs_evs]. auto. }
+    destruct (skip_flush_ok S i pos true st HS Hinv Hcl) as (s1 & ev1 & pos1 & He & Hr & Ha & Hi).
+    rewrite He.
+    destruct Hi as [Hi|(_ & Hx & Hc)].
+    + destruct (IH pos1 s1 HS Hi) as (s2 & ev2 & pos2 & He2 & Ha2).
+      rewrite He2. exists s2, (ev1 ++ ev2), pos2. split; [reflexivity|]. eapply abs_evs_app; eauto.
+    + (* completed: the loop stops at once *)
+      destruct f as [|f'].
+      * cbn [fa_loop]. exists s1, (ev1 ++ []), pos1. rewrite app_nil_r. auto.
+      * cbn [fa_loop]. rewrite Hc. exists s1, (ev1 ++ []), pos1. rewrite app_nil_r. auto.
+Qed.
+
+Lemma flush_all_ok : forall S i pos st,
+  zlen S < HIS -> inv S i pos st ->
+  exists st' ev pos', flush_all fixedv st = (st', ev, false) /\ abs_evs S pos ev pos'.
+Proof.
+  intros S i pos st HS Hinv. apply inv_inv2 in Hinv.
+  pose proof Hinv as (Hex & Hcfg & Hrev & Hsv & Hopn & Hpos).
+  unfold flush_all. rewrite Hex. cbn [negb]. rewrite Hrev.
+  unfold close_rev.
+  destruct (h_closed (s_half st)) eqn:Hcl.
+  - (* the data half was closed by FIN/RST before: closing the other half completes the stream *)
+    set (s1 := mkSt (s_cfg st) false (s_half st) true (s_rev_seen st) (s_used st) (s_sid st) (s_ncalls st)).
+    assert (Hf : forall fuel, fa_loop fuel fixedv s1 = (s1, [], false)).
+    { intros [|f]; cbn [fa_loop]; [reflexivity|]. subst s1. cbn [s_half]. rewrite Hcl. reflexivity. }
+    rewrite Hf. eexists. eexists. exists pos. split; [reflexivity|]. cbn [app abs_evs]. reflexivity.
+  - set (s1 := mkSt (s_cfg st) (s_exists st) (s_half st) true (s_rev_seen st) (s_used st) (s_sid st) (s_ncalls st)).
+    assert (Hi1 : inv2 S i pos true s1).
+    { subst s1. unfold inv2. cbn [s_exists s_cfg s_rev_closed s_half]. auto 10. }
+    destruct (fa_loop_ok S i (Datatypes.S (Datatypes.S (length (h_queue (s_half s1))))) pos s1 HS Hi1)
+      as (s2 & ev2 & pos2 & He2 & Ha2).
+    rewrite He2. exists s2, ([] ++ ev2), pos2. cbn [app]. auto.
+Qed.
+
+(* ---------------------------------------------------------------- histories with flushes *)
+Definition mid_hop (ts0 : Z) (h : hop) : bool :=
+  match h with
+  | HSyn _ _ | HData _ _ _ _ _ => true
+  | HFlush _ tc => tc <=? ts0          (* cannot close the connection: TC not after its first packet *)
+  | _ => false
+  end.
+
+Definition clean_at_segs (hs : list hop) (tr : list (list event * Z)) : Prop :=
+  Forall2 (fun h x => seg_hop h = true -> ev_clean (fst x)) hs tr.
+
+Lemma step_mid : forall S i ts0 pos st h,
+  zlen S < HIS -> inv S i pos st -> s_rev_seen st = ts0 -> mid_hop ts0 h = true -> hop_okb S h = true ->
+  exists st' ev pos', step fixedv st (op_of S i h) = (st', ev, false) /\
+    s_rev_seen st' = ts0 /\ abs_evs S pos ev pos' /\ inv S i pos' st' /\ (seg_hop h = true -> ev_clean ev).
+Proof.
+  intros S i ts0 pos st h HS Hinv Hrs Hmid Hok.
+  destruct (seg_hop h) eqn:Hseg.
+  - destruct (step_hop S i pos st h HS Hinv Hseg Hok) as (st' & ev & pos' & He & Hr & Hp & Hi & Hn & Hc).
+    exists st', ev, pos'. split; [exact He|]. split; [congruence|].
+    pose proof (i_pos _ _ _ _ Hi). pose proof (i_pos _ _ _ _ Hinv).
+    split; [|split; [exact Hi|intros _; exact Hc]].
+    replace pos' with (pos + (pos' - pos)) by lia.
+    apply clean_to_abs; try assumption; lia.
+  - destruct h as [| | | |t tc|]; try discriminate. cbn [mid_hop op_of step] in *.
+    destruct (flush_opts_ok S i t tc pos st HS Hinv) as (st' & ev & pos' & He & Hr & Ha & Hi); [lia|].
+    exists st', ev, pos'. split; [exact He|]. split; [congruence|]. split; [exact Ha|]. split; [exact Hi|].
+    intros Hc; discriminate.
+Qed.
+
+Lemma run_mids_tail : forall S i ts0 tail,
+  tail = [] \/ tail = [HFlushAll] ->
+  forall mids pos st,
+  zlen S < HIS -> inv S i pos st -> s_rev_seen st = ts0 ->
+  forallb (mid_hop ts0) mids = true -> forallb (hop_okb S) mids = true ->
+  let tr := run_trace fixedv st (map (op_of S i) (mids ++ tail)) in
+  length tr = length (mids ++ tail) /\
+  (exists pos', abs_evs S pos (concat (map fst tr)) pos') /\ clean_at_segs (mids ++ tail) tr.
+Proof.
+  intros S i ts0 tail Htail. induction mids as [|h t IH]; intros pos st HS Hinv Hrs Hmid Hok.
+  - cbn [app]. destruct Htail as [Ht|Ht]; subst tail; cbn [map run_trace length].
+    + split; [reflexivity|]. split; [exists pos; reflexivity|constructor].
+    + cbn [op_of step].
+      destruct (flush_all_ok S i pos st HS Hinv) as (st' & ev & pos' & He & Ha). rewrite He.
+      cbn [length map fst concat]. rewrite app_nil_r.
+      split; [reflexivity|]. split; [exists pos'; exact Ha|].
+      constructor; [intros Hc; discriminate|constructor].
+  - cbn [forallb] in Hmid, Hok. apply andb_prop in Hmid. apply andb_prop in Hok.
+    destruct Hmid as (Hm1 & Hm2). destruct Hok as (Ho1 & Ho2).
+    destruct (step_mid S i ts0 pos st h HS Hinv Hrs Hm1 Ho1) as (st' & ev & pos1 & He & Hr & Ha & Hi & Hc).
+    destruct (IH pos1 st' HS Hi Hr Hm2 Ho2) as (Hl & (pos' & Ha') & Hcl).
+    cbn [app map run_trace]. rewrite He. cbn [length map fst concat].
+    split; [rewrite Hl; reflexivity|]. split.
+    + exists pos'. eapply abs_evs_app; eauto.
+    + constructor; [exact Hc|exact Hcl].
+Qed.
+
+(* C09_flush_partial: SYN first, then consistent segments in any order interleaved with
+   FlushWithOptions calls that cannot close the connection, optionally FlushAll at the end; no page
+   limit, no KeepFrom.  The run does not stop; reading the events in order from offset 0, every
+   ScatterGather carries no saved bytes and a skip >= 0, and its bytes are exactly S at the
+   absolute offset reached by adding up everything delivered and skipped before; a step that is
+   a segment has only skip 0. *)
+Theorem flush_partial : forall S i n0 ts0 mids tail,
+  zlen S < HIS -> 0 <= n0 <= zlen S -> tail = [] \/ tail = [HFlushAll] ->
+  forallb (mid_hop ts0) mids = true -> forallb (hop_okb S) mids = true ->
+  let hs := HSyn n0 ts0 :: mids ++ tail in
+  let tr := run_hist fixedv S i hs in
+  length tr = length hs /\
+  (exists pos, abs_evs S 0 (concat (map fst tr)) pos) /\ clean_at_segs hs tr.
+Proof.
+  intros S i n0 ts0 mids tail HS Hn0 Htail Hmid Hok hs tr. subst hs tr.
+  unfold run_hist. cbn [map op_of run_trace step].
+  destruct (assemble_first_syn S i n0 ts0 HS Hn0) as (st' & ev & He & Hr & Hi & Hn & Hc).
+  rewrite He.
+  destruct (run_mids_tail S i ts0 tail Htail mids n0 st' HS Hi Hr Hmid Hok) as (Hl & (pos' & Ha) & Hcl).
+  cbn [length map fst concat]. split; [rewrite Hl; reflexivity|]. split.
+  - exists pos'.
+    assert (Hx : abs_evs S 0 ev (0 + n0)) by (apply clean_to_abs; try assumption; lia).
+    rewrite Z.add_0_l in Hx. eapply abs_evs_app; [exact Hx|exact Ha].
+  - constructor; [intros _; exact Hc|exact Hcl].
+Qed.
